@@ -94,3 +94,235 @@ Proof.
           end);
   intros j Hj; in_front Hj; subst; try reflexivity.
 Qed.
+
+(* ------------------------------------------------------------------ spawn: the self record *)
+
+(** for every instruction: the executing context keeps its pending list and the fields [exec1] never changes *)
+Lemma exec1_self s t h i s' front x :
+  exec1 s t h i = (s', front) -> get s (self_of t) = Some x ->
+  exists x', get s' (self_of t) = Some x' /\ core_same x x' /\ a_watchers x' = a_watchers x /\
+    (chg_state i = false -> a_state x' = a_state x) /\
+    (chg_zombie i = false -> a_zombie x' = a_zombie x) /\
+    (chg_restarting i = false -> a_restarting x' = a_restarting x) /\
+    (chg_cons i = false -> a_cons x' = a_cons x) /\
+    (chg_cur i = false -> a_cur x' = a_cur x) /\
+    (chg_children i = false -> is_spawn i = false -> a_children x' = a_children x).
+Proof.
+  intros He Hg. destruct (is_spawn i) eqn:Hsp.
+  - destruct i as [| | | | | | | | |ac| | | | | | | | | | | |]; try discriminate Hsp. destruct ac; try discriminate Hsp.
+    destruct (a_state x) eqn:Hst.
+    3:{ rewrite (exec1_spawn_parent_dead s t h sp x Hg Hst) in He. inversion He; subst.
+        exists x. split; [exact Hg|]. split; [apply core_same_refl|]. repeat split; intros; first [reflexivity|congruence]. }
+    all: assert (Hnk : a_state x <> Killed) by congruence.
+    all: destruct (sp_prelaunch sp) eqn:Hpl;
+      [|rewrite (exec1_spawn_prelaunch_fail s t h sp x Hg Hnk Hpl) in He; inversion He; subst;
+        exists x; split; [exact Hg|]; split; [apply core_same_refl|]; repeat split; intros; first [reflexivity|congruence]].
+    all: destruct (alookup (reg s) (a_path x ++ [sp_name sp])) as [c|] eqn:Hr;
+      [rewrite (exec1_spawn_exists s t h sp x c Hg Hnk Hpl Hr) in He; inversion He; subst;
+        exists x; split; [exact Hg|]; split; [apply core_same_refl|]; repeat split; intros; first [reflexivity|congruence]|].
+    all: destruct (exec1_spawn_ok s t h sp x s' front Hg Hnk Hpl Hr He) as (_ & _ & _ & Hs & _).
+    all: eexists; split; [exact Hs|]; split; [repeat split|]; repeat split; intros; try reflexivity; try exact Hst; try discriminate.
+  - destruct (exec1_summary s t h i s' front x Hsp He Hg) as (x' & Ha & Hc & _ & _ & H1 & H2 & H3 & H4 & H5 & H6 & _ & H7 & _).
+    exists x'. split; [|repeat split; try apply Hc; auto].
+    unfold get. rewrite Ha. eapply nth_error_upd_same. exact Hg.
+Qed.
+
+(* ------------------------------------------------------------------ mailbox operations: frames *)
+
+(** everything but the mailbox part (cache, queues, paused flag) *)
+Definition lsame (x y : actor) : Prop :=
+  a_path y = a_path x /\ a_gen y = a_gen x /\ a_parent y = a_parent x /\ a_spec y = a_spec x /\
+  a_state y = a_state x /\ a_zombie y = a_zombie x /\ a_restarting y = a_restarting x /\
+  a_children y = a_children x /\ a_watchers y = a_watchers x /\ a_stash y = a_stash x /\ a_modes y = a_modes x /\
+  a_inst y = a_inst x /\ a_decisions y = a_decisions x /\ a_hooks y = a_hooks x /\
+  a_cons y = a_cons x /\ a_cur y = a_cur x /\ a_pend y = a_pend x.
+
+Lemma lsame_refl x : lsame x x. Proof. repeat split. Qed.
+
+Definition mb_equiv (s s' : state) : Prop :=
+  (forall b, match get s b, get s' b with
+             | Some x, Some y => lsame x y
+             | None, None => True
+             | _, _ => False
+             end) /\
+  exts s' = exts s /\ reg s' = reg s /\ gens s' = gens s /\ subs s' = subs s /\ olog s' = olog s.
+
+Lemma mb_equiv_refl s : mb_equiv s s.
+Proof. split; [|repeat split]. intros b. destruct (get s b); [apply lsame_refl|exact I]. Qed.
+
+Lemma mb_equiv_trans s1 s2 s3 : mb_equiv s1 s2 -> mb_equiv s2 s3 -> mb_equiv s1 s3.
+Proof.
+  intros (H1 & E1 & R1 & G1 & S1 & O1) (H2 & E2 & R2 & G2 & S2 & O2).
+  split; [|repeat split; congruence].
+  intros b. specialize (H1 b). specialize (H2 b).
+  destruct (get s1 b), (get s2 b), (get s3 b); try contradiction; try exact I.
+  unfold lsame in *. intuition congruence.
+Qed.
+
+Lemma mb_equiv_set_actor s a x y : get s a = Some x -> lsame x y -> mb_equiv s (set_actor s a y).
+Proof.
+  intros Hg Hl. split; [|repeat split]. intros b. destruct (Nat.eq_dec a b) as [<-|Hne].
+  - rewrite (get_set_actor_same _ _ _ _ Hg), Hg. exact Hl.
+  - rewrite get_set_actor_other by exact Hne. destruct (get s b); [apply lsame_refl|exact I].
+Qed.
+
+Lemma mb_equiv_set_err s : mb_equiv s (set_err s).
+Proof. split; [|repeat split]. intros b. change (get (set_err s) b) with (get s b). destruct (get s b); [apply lsame_refl|exact I]. Qed.
+
+Lemma mb_equiv_push_mb s a e : mb_equiv s (push_mb s a e).
+Proof.
+  unfold push_mb, with_actor. destruct (get s a) as [x|] eqn:Hg; [|apply mb_equiv_set_err].
+  apply mb_equiv_set_actor with (x := x); [exact Hg|repeat split].
+Qed.
+
+Lemma mb_equiv_deliver s m e : mb_equiv s (fst (deliver s m e)).
+Proof. destruct m; cbn [deliver fst]; apply mb_equiv_push_mb. Qed.
+
+Lemma mb_equiv_resolve s r : mb_equiv s (snd (resolve s r)).
+Proof.
+  destruct r as [a|p|]; cbn [resolve]; [| |apply mb_equiv_refl].
+  - destruct (get s a) as [x|] eqn:Hg; [|apply mb_equiv_set_err].
+    destruct (a_cache x); [apply mb_equiv_refl|].
+    destruct (alookup (reg s) (a_path x)); [|destruct (path_eqb (a_path x) []); apply mb_equiv_refl].
+    cbn [snd]. apply mb_equiv_set_actor with (x := x); [exact Hg|repeat split].
+  - destruct (alookup (reg s) p); [apply mb_equiv_refl|]. destruct (path_eqb p []); apply mb_equiv_refl.
+Qed.
+
+(** [set_pend] *)
+Lemma get_set_pend_TA_same s a p x : get s a = Some x -> get (set_pend s (TA a) p) a = Some (upd_pend x p).
+Proof. intros Hg. cbn [set_pend]. unfold with_actor. rewrite Hg. apply (get_set_actor_same _ _ _ _ Hg). Qed.
+
+Lemma get_set_pend_TA_other s a b p : a <> b -> get (set_pend s (TA a) p) b = get s b.
+Proof.
+  intros Hne. cbn [set_pend]. unfold with_actor. destruct (get s a); [apply get_set_actor_other; exact Hne|reflexivity].
+Qed.
+
+Lemma get_set_pend_TX s i p b : get (set_pend s (TX i) p) b = get s b.
+Proof. cbn [set_pend]. destruct (nth_error (exts s) i); reflexivity. Qed.
+
+Lemma pend_of_set_pend_same s t p : err (set_pend s t p) = false -> pend_of (set_pend s t p) t = p.
+Proof.
+  destruct t as [a|i]; cbn [set_pend pend_of].
+  - unfold with_actor. destruct (get s a) as [x|] eqn:Hg; [|discriminate]. intros _.
+    rewrite (get_set_actor_same _ _ _ _ Hg). reflexivity.
+  - destruct (nth_error (exts s) i) as [ex|] eqn:Hn; [|discriminate]. intros _.
+    unfold set_ext; cbn [exts]. rewrite (nth_error_upd_same _ _ _ _ Hn). reflexivity.
+Qed.
+
+(* ------------------------------------------------------------------ exec1 and the external callers' records *)
+
+Lemma exec1_exts_pend s t h i s' front :
+  exec1 s t h i = (s', front) ->
+  forall k, option_map x_pend (nth_error (exts s') k) = option_map x_pend (nth_error (exts s) k).
+Proof.
+  intros He k. destruct (is_spawn i) eqn:Hsp.
+  - destruct i as [| | | | | | | | |ac| | | | | | | | | | | |]; try discriminate Hsp. destruct ac; try discriminate Hsp.
+    unfold exec1 in He. destruct (get s (self_of t)) as [x|] eqn:Hg; [|inversion He; reflexivity].
+    repeat (match type of He with
+          | (_, _) = (_, _) => inversion He; subst s' front; clear He
+          | context [match ?y with _ => _ end] => destruct y eqn:?
+          end); try reflexivity.
+    all: unfold with_actor; repeat destr_match; cbn [exts set_actor set_err]; try reflexivity.
+    all: match goal with Hn : nth_error (exts _) ?j = Some _ |- _ =>
+           destruct (Nat.eq_dec j k) as [->|Hne];
+           [rewrite (nth_error_upd_same _ _ _ _ Hn), Hn; reflexivity|rewrite nth_error_upd_other by exact Hne; reflexivity] end.
+  - unfold exec1 in He. destruct (get s (self_of t)) as [x|] eqn:Hg; [|inversion He; reflexivity].
+    destruct (exec1_summary s t h i s' front x Hsp) as (x' & _ & _ & Hx & _); [unfold exec1; rewrite Hg; exact He|exact Hg|].
+    rewrite Hx. reflexivity.
+Qed.
+
+Lemma astep_TA s a i rest x :
+  get s a = Some x ->
+  exists s1 front x1,
+    exec1 (set_actor s a (upd_pend x rest)) (TA a) [] i = (s1, front) /\ get s1 a = Some x1 /\ a_pend x1 = rest /\
+    astep s (TA a) i rest = set_actor s1 a (upd_pend x1 (front ++ rest)).
+Proof.
+  intros Hg. unfold astep. cbn [set_pend held_of]. unfold with_actor at 1. rewrite Hg.
+  destruct (exec1 (set_actor s a (upd_pend x rest)) (TA a) [] i) as [s1 front] eqn:He.
+  assert (Hg0 : get (set_actor s a (upd_pend x rest)) (self_of (TA a)) = Some (upd_pend x rest))
+    by (apply (get_set_actor_same _ _ _ _ Hg)).
+  destruct (exec1_self _ _ _ _ _ _ _ He Hg0) as (x1 & Hg1 & Hc & _).
+  exists s1, front, x1. split; [reflexivity|]. split; [exact Hg1|].
+  assert (Hp : a_pend x1 = rest) by (destruct Hc as (_ & _ & _ & _ & _ & _ & _ & _ & Hc); exact Hc).
+  split; [exact Hp|]. cbn [pend_of self_of] in *. unfold with_actor. rewrite Hg1, Hp. reflexivity.
+Qed.
+
+Lemma astep_TX s k i rest ex :
+  nth_error (exts s) k = Some ex ->
+  exists s1 front ex1,
+    exec1 (set_ext s k {| x_pend := rest; x_held := x_held ex |}) (TX k) (x_held ex) i = (s1, front) /\
+    nth_error (exts s1) k = Some ex1 /\ x_pend ex1 = rest /\
+    (forall j, j <> k -> option_map x_pend (nth_error (exts s1) j) = option_map x_pend (nth_error (exts s) j)) /\
+    astep s (TX k) i rest = set_ext s1 k {| x_pend := front ++ rest; x_held := x_held ex1 |}.
+Proof.
+  intros Hn. unfold astep. cbn [set_pend]. rewrite Hn.
+  assert (Hn0 : nth_error (exts (set_ext s k {| x_pend := rest; x_held := x_held ex |})) k = Some {| x_pend := rest; x_held := x_held ex |})
+    by (unfold set_ext; cbn [exts]; apply (nth_error_upd_same _ _ _ _ Hn)).
+  assert (Hh : held_of (set_ext s k {| x_pend := rest; x_held := x_held ex |}) (TX k) = x_held ex)
+    by (cbn [held_of]; rewrite Hn0; reflexivity).
+  rewrite Hh.
+  destruct (exec1 (set_ext s k {| x_pend := rest; x_held := x_held ex |}) (TX k) (x_held ex) i) as [s1 front] eqn:He.
+  pose proof (exec1_exts_pend _ _ _ _ _ _ He) as Hx.
+  pose proof (Hx k) as Hk. rewrite Hn0 in Hk. cbn [option_map x_pend] in Hk.
+  destruct (nth_error (exts s1) k) as [ex1|] eqn:Hn1; [|discriminate Hk].
+  cbn [option_map] in Hk. assert (Hk' : x_pend ex1 = rest) by congruence.
+  exists s1, front, ex1. split; [reflexivity|]. split; [exact Hn1|]. split; [exact Hk'|]. split.
+  - intros j Hj. rewrite Hx. unfold set_ext; cbn [exts]. rewrite nth_error_upd_other by congruence. reflexivity.
+  - cbn [pend_of set_pend]. rewrite Hn1, Hk'. reflexivity.
+Qed.
+
+(** the other contexts: untouched; ActorOf may append one fresh context *)
+Lemma exec1_other s t h i s' front b y :
+  exec1 s t h i = (s', front) -> b <> self_of t -> get s' b = Some y ->
+  get s b = Some y \/
+  (get s b = None /\ b = length (actors s) /\
+   exists sp x, i = IAct (ASpawn sp) /\ get s (self_of t) = Some x /\ a_state x <> Killed /\ sp_prelaunch sp = true /\
+     alookup (reg s) (a_path x ++ [sp_name sp]) = None /\
+     y = new_actor (a_path x ++ [sp_name sp]) (match alookup (gens s) (a_path x ++ [sp_name sp]) with Some g => g | None => 0 end)
+                   (Some (self_of t)) sp).
+Proof.
+  intros He Hb Hy.
+  destruct (get s (self_of t)) as [x|] eqn:Hg.
+  2:{ unfold exec1 in He. rewrite Hg in He. inversion He; subst. left. exact Hy. }
+  destruct (is_spawn i) eqn:Hsp.
+  - destruct i as [| | | | | | | | |ac| | | | | | | | | | | |]; try discriminate Hsp. destruct ac; try discriminate Hsp.
+    destruct (a_state x) eqn:Hst.
+    3:{ rewrite (exec1_spawn_parent_dead s t h sp x Hg Hst) in He. inversion He; subst. left; exact Hy. }
+    all: assert (Hnk : a_state x <> Killed) by congruence.
+    all: destruct (sp_prelaunch sp) eqn:Hpl;
+      [|rewrite (exec1_spawn_prelaunch_fail s t h sp x Hg Hnk Hpl) in He; inversion He; subst; left; exact Hy].
+    all: destruct (alookup (reg s) (a_path x ++ [sp_name sp])) as [c|] eqn:Hr;
+      [rewrite (exec1_spawn_exists s t h sp x c Hg Hnk Hpl Hr) in He; inversion He; subst; left; exact Hy|].
+    all: destruct (exec1_spawn_ok s t h sp x s' front Hg Hnk Hpl Hr He) as (_ & Hnew & Hoth & _).
+    all: destruct (Nat.eq_dec b (length (actors s))) as [Hbe|Hbn];
+      [right; subst b; rewrite Hnew in Hy; inversion Hy; subst y;
+       split; [apply nth_error_None; apply Nat.le_refl|]; split; [reflexivity|];
+       exists sp, x; repeat split; try assumption; try reflexivity; congruence
+      |left; rewrite <- (Hoth b Hb Hbn); exact Hy].
+  - destruct (exec1_summary s t h i s' front x Hsp He Hg) as (x' & Ha & _).
+    left. unfold get in *. rewrite Ha in Hy. rewrite nth_error_upd_other in Hy by congruence. exact Hy.
+Qed.
+
+(* ------------------------------------------------------------------ dispatch: frame *)
+
+(** HandleEnvelop itself (before the instructions run) changes only the handling context's state,
+    restart marker, current envelope, decisions and watchers *)
+Lemma dispatch_frame s a x e s1 ins :
+  get s a = Some x -> dispatch s a x e = (s1, ins) ->
+  exists y, actors s1 = upd (actors s) a y /\ exts s1 = exts s /\ reg s1 = reg s /\ subs s1 = subs s /\
+    olog s1 = olog s /\ gens s1 = gens s /\ err s1 = err s /\
+    a_path y = a_path x /\ a_gen y = a_gen x /\ a_parent y = a_parent x /\ a_spec y = a_spec x /\
+    a_cache y = a_cache x /\ a_sq y = a_sq x /\ a_uq y = a_uq x /\ a_paused y = a_paused x /\ a_pend y = a_pend x /\
+    a_cons y = a_cons x /\ a_zombie y = a_zombie x /\ a_children y = a_children x /\ a_stash y = a_stash x /\
+    a_modes y = a_modes x /\ a_inst y = a_inst x /\ a_hooks y = a_hooks x.
+Proof.
+  intros Hg He. pose proof Hg as Hg'. unfold get in Hg'. unfold dispatch in He.
+  repeat (match type of He with
+          | (_, _) = (_, _) => inversion He; subst s1 ins; clear He
+          | context [match ?y with _ => _ end] => destruct y eqn:?
+          end).
+  all: try (exists x; split; [symmetry; apply upd_same; exact Hg'|repeat split; cbn; first [reflexivity|congruence]]; fail).
+  all: try (eexists; split; [reflexivity|repeat split; cbn; first [reflexivity|congruence]]; fail).
+  all: repeat destr_match.
+  all: try (eexists; split; [reflexivity|repeat split; cbn; first [reflexivity|congruence]]; fail).
+Qed.
